@@ -31,7 +31,7 @@ func (s c03Shape) String() string {
 	return s.Context + "[" + strings.Join(parts, " ") + "]"
 }
 
-var c03Bodies = []string{"empty", "cmd", "break", "cmdbreakcmd", "ifbreak", "labelcmd"}
+var c03Bodies = []string{"empty", "cmd", "break", "cmdbreakcmd", "cmdend", "ifbreak", "labelcmd"}
 
 func enumSwitchShapes(m int, bodies []string) [][]swEntry {
 	var res [][]swEntry
@@ -72,6 +72,8 @@ func c03Case(entries []swEntry, context string) *Case {
 			c.Body = []Stmt{newCmd()}
 		case "break":
 			c.Body = []Stmt{&Break{}}
+		case "cmdend":
+			c.Body = []Stmt{newCmd(), &Cmd{Name: L("end")}}
 		case "cmdbreakcmd":
 			c.Body = []Stmt{newCmd(), &Break{}, newCmd()}
 		case "ifbreak":
